@@ -43,7 +43,8 @@ CLAIMS = {
  "C13": ("Savepoint and commit plumbing of sql.SQLTx only: Savepoint / RollbackToSavepoint / ReleaseSavepoint fail exactly when the lookup fails (nil map "
          "included), restore the four SQL-level counters, are a no-op on error and write only the SQLTx (checked frame); a harness proves that "
          "RollbackToSavepoint leaves the store transaction untouched and the harness stating the property's clause (writes after the savepoint are undone) is "
-         "the known finding; Cancel and the first part of Commit keep the one-shot discipline (already-closed error, same store tx). Not decided: statement "
+         "the known finding; Cancel and the first part of Commit keep the one-shot discipline (already-closed error, same store tx); every invalidation of the engine-wide "
+         "catalog cache bumps the cache version (typestate order rule). Not decided: statement "
          "execution, atomicity and isolation over programs and sessions, pgsql front end.",
          "DESIGN.md 3 (C13), 11"),
  "C05": ("Sequential clauses of MVCC over the real OngoingTx code: GetWithFilters / GetWithPrefixAndFilters / MarkPrefixScanned / key readers record exactly one "
@@ -66,7 +67,7 @@ CLAIMS = {
          "precommitted); AllowCommitUpto is monotone and capped by the precommitted id and fails without external allowance; DiscardPrecommittedTxsSince recedes the "
          "durable-precommit watermark consistently at the return sites that decide within budget (its full contract - committed pair untouched, allowance of "
          "discarded transactions voided - is written and was discharged, but is too unstable in solver time to be registered); "
-         "PrecommittedAlh / accessors; OngoingTx.validateAgainst accepts a header only with matching entry count and metadata; Tx.Header copies the header "
+         "its deferred function literal recedes the watermark only after the precommitted id was lowered (typestate order rule); PrecommittedAlh / accessors; OngoingTx.validateAgainst accepts a header only with matching entry count and metadata; Tx.Header copies the header "
          "fields. Not decided: performPrecommit and precommit (contracts written, not discharged within budget), ReplicateTx end to end, replicator goroutines, "
          "delivery schedules, network.",
          "DESIGN.md 3 (C07), 11"),
@@ -87,7 +88,8 @@ CLAIMS = {
          "DESIGN.md 3 (C10)"),
  "C14": ("ExportTx releases _valBsMux on every return path and in every loop iteration (typestate level); multiapp.DiscardUpto removes chunk i "
          "only if (i+1)*fileSize <= off and i < currAppID, errors if off > size and leaves fileSize/currAppID/currApp unchanged; "
-         "decodeOffset(encodeOffset(o, id)) == (id, o). The tombstone computation of TruncateUptoTx, racing writers and the SQL catalog copy are not decided.",
+         "decodeOffset(encodeOffset(o, id)) == (id, o); the truncation protocol commits the SQL catalog copy (with the truncation marker) before any value-log data "
+         "is discarded and reports success only after that commit (typestate order rules on vlogTruncator.TruncateUptoTx and db.CopySQLCatalog). The tombstone computation of TruncateUptoTx, racing writers and the SQL catalog copy are not decided.",
          "DESIGN.md 3 (C14)"),
  "C15": ("Round trip and order lemmas as loop-free harnesses over the REAL encoders/decoders: SQL key encodings of INTEGER, BOOLEAN, UUID, FLOAT, "
          "TIMESTAMP, NULL (round trip, order iff byte order, equal iff identical; FLOAT except the known -0.0/+0.0 finding), VARCHAR/BLOB key round "
